@@ -17,7 +17,9 @@ import (
 var checks = map[string]func(*Ctx){}
 
 func main() {
-	log.SetOutput(io.Discard) // the emulator logs bad patterns etc.; not part of any observation
+	if os.Getenv("VERIF_LOG") == "" {
+		log.SetOutput(io.Discard) // the emulator logs bad patterns etc.; not part of any observation
+	}
 	if len(os.Args) < 2 {
 		fmt.Fprintln(os.Stderr, "usage: verif check --property Cxx --tier quick|thorough | verif replay <path>")
 		os.Exit(2)
@@ -57,6 +59,8 @@ func main() {
 			fn(c)
 		}()
 		os.Exit(c.Finish())
+	case "race":
+		os.Exit(raceMain(os.Args[2:]))
 	case "replay":
 		if len(os.Args) < 3 {
 			os.Exit(2)
